@@ -590,7 +590,7 @@ fn conc_props(tier: &str, seed: u64, out: &str) {
         ("u<->v", vec!["connect 0 1 7".into(), "connect 1 0 8".into()]),
         ("loop+par", vec!["connect 0 0 5".into(), "connect 0 1 7".into(), "connect 0 1 9".into()]),
     ];
-    let muts = ["c.0.1.1", "c.1.0.2", "t.0.1.3", "d.0.1", "d.1.0", "x.0", "x.1"];
+    let muts = ["c.0.1.1", "c.1.0.2", "t.0.1.3", "t.1.0.4", "d.0.1", "d.1.0", "x.0", "x.1"];
     let reads = ["q.0.1", "g.0", "o.1", "i.0", "i.1"];
     let mut scenarios: Vec<(String, Vec<String>, String)> = vec![];
     for (iname, init) in inits.iter().take(if quick { 3 } else { 4 }) {
@@ -659,7 +659,7 @@ fn conc_props(tier: &str, seed: u64, out: &str) {
     for (k, v) in per_fl {
         extra.insert(format!("schedules.{k}"), format!("{v}"));
     }
-    extra.insert("scenarios".into(), format!("{} per flavour (every pair of the 7 two-node mutators, every mutator against 5 readers, x initial states{})", scenarios.len(), if quick { "" } else { "; plus 3-thread and 2-calls-per-thread scenarios" }));
+    extra.insert("scenarios".into(), format!("{} per flavour (every pair of the 8 two-node mutators, every mutator against 5 readers, x initial states{})", scenarios.len(), if quick { "" } else { "; plus 3-thread and 2-calls-per-thread scenarios" }));
     ctx.counters.insert("cases".into(), total as u64);
     write_outputs(out, &ctxs, extra);
 }
